@@ -25,6 +25,10 @@ CLAIMED = {
         text="Stats.tla defines ESS = m n / tau with Geyer's initial positive monotone sequence over exact integer autocovariances (no brute-force/FFT distinction); TLC checks affine, permutation and time-reversal invariance on every array in the bounds and emits the exact expected ESS; arrays are replayed into the real implementation on the brute-force path (exhaustive small arrays) and on the FFT path (spec-generated binary Markov/block chains with half lengths 100..500 around the 100-row switch and both padding cases).",
         note="Trusted: TLC, float comparison with 2^-14 relative tolerance; arrays whose Geyer cut is within 2^-12 var+ of a tie are skipped for the value (rule U). Asymptotic 'about N(1-phi)/(1+phi)' is not asserted.",
         ref="DESIGN.md 4.8, 5/C12", technique="TLC-enumerated and TLC-generated arrays with exact rational oracle (Stats.tla) replayed into the real ESS code"),
+    "C13": dict(
+        text="Trackers.tla models a tracker by its exact sufficient statistics (n, sums, sums of squares, previous state); TLC enumerates every update history in the bounds and emits exact per-chain statistics and the classical R-hat^2 fraction, which ChainTracker, collect_rhat and MultiChainTracker must all reproduce; RhatGrid.tla does the same for collect_rhat over a grid of per-chain summaries with 1..3 parameters; histories of up to 5000 updates (1..8 parameters, 4 element types) are validated report by report by TLC (count, mean, unbiased variance in fixed point, EMA recurrence with weight 0.01 and range [0,1], multi-row envelope).",
+        note="Trusted: TLC, fixed-point projection in harness/src/c13.rs, certified 0.99^j table (Pow99.tla). Tolerances: (2+n/256)*2^-12 on means, (4+n/32)*2^-12 on variances; first EMA report only range-checked.",
+        ref="DESIGN.md 4.8, 5/C13", technique="TLC-enumerated histories with exact oracle (MC_Trackers, RhatGrid) replayed into the trackers + trace validation of long histories (Trace_Trackers)"),
 }
 
 PENDING_REASON = "check not built yet in this round (planned: see DESIGN.md section 5); not claimed until its TLC + conformance check exists"
